@@ -51,7 +51,39 @@ def upper_layer(rng, base):
     return out
 
 
+def merge_key_case(rng):
+    """a YAML base written with an anchor, plain aliases and MERGE KEYS (`<<: *d`, with and without own keys overriding the
+    merged ones): every place denotes its own copy - a key overridden at one place stays `$required` at the others"""
+    import yaml
+    sub = rng.choice([{"name": REQ, "port": 1}, {"name": REQ}, {"name": REQ, "in": {"k": REQ}}, {"name": "n", "in": {"k": REQ, "j": 2}}])
+    flow = yaml.safe_dump(sub, default_flow_style=True, width=1000).strip()
+    over = rng.choice(["name", "port", "in"])
+    places = rng.sample(["one", "two", "three", "four"], rng.randint(2, 4))
+    lines, tree = ["defaults: &d " + flow], {"defaults": gen.deep(sub)}
+    for pl in places:
+        how = rng.choice(["alias", "merge", "merge-own", "merge-list"])
+        if how == "alias":
+            lines.append(f"{pl}: *d")
+            tree[pl] = gen.deep(sub)
+        elif how == "merge":
+            lines.append(f"{pl}: {{<<: *d}}")
+            tree[pl] = gen.deep(sub)
+        elif how == "merge-list":
+            lines.append(f"{pl}: {{<<: [*d], extra: 1}}")
+            tree[pl] = dict(gen.deep(sub), extra=1)
+        else:
+            lines.append(f"{pl}: {{<<: *d, {over}: first}}")
+            tree[pl] = dict(gen.deep(sub), **{over: "first"})
+    layers = [tree]
+    for _ in range(rng.randint(0, 2)):
+        layers.append(upper_layer(rng, layers[0]))
+    fmts = ["yaml"] + [rng.choice(["yaml", "json"]) for _ in layers[1:]]
+    return {"layers": layers, "fmts": fmts, "raw": {"0": "\n".join(lines) + "\n"}}
+
+
 def gen_case(rng):
+    if rng.random() < 0.08:
+        return merge_key_case(rng)
     base = gen.with_required(rng, pmap_tree(rng, depth=rng.randint(2, 4)), rng.choice([0.0, 0.1, 0.2, 0.35]))
     layers = [base]
     for _ in range(rng.randint(0, 2)):
@@ -73,8 +105,8 @@ def run_one(case):
     obs = {}
     nm = names(case)
     with Workdir() as d:
-        for n, l, f in zip(nm, case["layers"], case["fmts"]):
-            write_files(d, {n: formats.dump(f, [l])})
+        for i, (n, l, f) in enumerate(zip(nm, case["layers"], case["fmts"])):
+            write_files(d, {n: (case.get("raw") or {}).get(str(i)) or formats.dump(f, [l])})
         top, f = nm[-1], case["fmts"][-1]
         r = run_cli("bklr", [top], d)
         obs["bklr"] = {k: r[k] for k in ("rc", "out", "err")}
